@@ -305,6 +305,16 @@ def run_check(cid, tier, seed):
             violations += 1
     if not obs and not scan_results:
         errors.append('zero obligations generated')
+    for sr in scan_results:
+        for u in sr.get('unproved', []):
+            errors.append(f'{u.split(":")[0]}: unsupported:{sr["name"]}: {u.split(":", 1)[1].strip()}')
+    if nat is not None and exit_code != 1:
+        # a history on which the native harness itself crashed was not judged by the oracle: never a pass
+        for se in (nat.get('spec_errors') or []):
+            if se.get('driver_error'):
+                errors.append('native harness crashed on a history (not judged): '
+                              + str(se['driver_error']).strip().splitlines()[-1][:200])
+                break
     degraded = []
     if errors and exit_code != 1:
         # a function that left the supported subset (or disappeared): the native layer still decides what it can
